@@ -96,7 +96,7 @@ def spec_payload(R, F):
     return Rope([(K(SIGN_MAGIC), 4), (R, 32), (F, 32)])
 
 
-def scenario(prog, n, seq, weights=None):
+def scenario(prog, n, seq, weights=None, one_shot=False):
     """-> list of (outcome, detail, it) per path"""
     state = dict(valid=set(), asked=[])
     R = Sym('R', ty='bytes', n=32, key=('blk', 'root'))
@@ -143,7 +143,8 @@ def scenario(prog, n, seq, weights=None):
             d.keyobj = {k: K(k) for k in d.d}
             sigs.append(d)
         try:
-            it.invoke(prog.func('check_block_signatures'), [ListV(nodes), ListV(sigs), blk], {})
+            # one_shot: the validator set handed over as a single-pass iterable (islice over the set's values, a filtering generator)
+            it.invoke(prog.func('check_block_signatures'), [IterV(list(nodes)) if one_shot else ListV(nodes), ListV(sigs), blk], {})
             return ('accept', None, it)
         except RaiseEx as e:
             return ('raise', e, it)
@@ -346,6 +347,12 @@ def check(run):
         ok = kinds == ({'accept'} if want else {'raise'})
         run.check(ok, 'D1', 'check_block_signatures[threshold]' if not ok else f'concrete[w={weights},signers={[i for _, i in seq]}]',
                   f'weights {weights}, valid signatures of {[i for _, i in seq]}: {sorted(kinds)} (must be {"accept" if want else "reject"}: 3*signed {">" if want else "<="} 2*total)', w)
+        # the same with the validators given as a single-pass iterable: the set is walked once, whatever it is
+        paths = scenario(prog, len(weights), seq, weights, one_shot=True)
+        kinds = {k for (k, _, _), _ in paths}
+        ok = kinds == ({'accept'} if want else {'raise'})
+        run.check(ok, 'D1', 'check_block_signatures[threshold, validators as a one-shot iterable]' if not ok else f'concrete one-shot[w={weights},signers={[i for _, i in seq]}]',
+                  f'validators as an iterator, weights {weights}, valid signatures of {[i for _, i in seq]}: {sorted(kinds)} (must be {"accept" if want else "reject"})', w)
 
 
 def spellings_and_replay(run, prog, w):
